@@ -119,29 +119,38 @@ class Real:
         return res
 
     def run_fn(self, lines):
-        """function-level protocol; returns list of answers ('R i …' stripped to the part after the index) or
-        {'fail':…} for the line the process died on"""
+        """function-level protocol; returns list of answers ('R i …' stripped to the part after the index),
+        {'fail':…} for a line the process died on, or 'skipped' (a function that already died 3 times is not run again)"""
         res = [None] * len(lines)
-        start = 0
-        while start < len(lines):
-            inp = "".join(f"{i} {l}\n" for i, l in enumerate(lines[start:]))
+        deaths = {}
+        todo = list(range(len(lines)))
+        while todo:
+            dead_fns = {f for f, n in deaths.items() if n >= 3}
+            for i in [i for i in todo if lines[i].split()[0] in dead_fns]:
+                res[i] = "skipped"
+            todo = [i for i in todo if lines[i].split()[0] not in dead_fns]
+            if not todo:
+                break
+            inp = "".join(f"{j} {lines[i]}\n" for j, i in enumerate(todo))
             r = subprocess.run([self.exe, "fn"], input=inp.encode(), capture_output=True, env=self.env,
-                               timeout=120 + len(lines) // 200)
+                               timeout=300 + len(todo) // 100)
             out, err = r.stdout.decode("latin-1"), r.stderr.decode("latin-1")
             got = 0
             for line in out.splitlines():
                 w = line.split(" ", 2)
                 if w[0] == "R":
-                    res[start + int(w[1])] = w[2] if len(w) > 2 else ""
+                    res[todo[int(w[1])]] = w[2] if len(w) > 2 else ""
                     got += 1
-            if r.returncode == 0 and got == len(lines) - start:
+            if r.returncode == 0 and got == len(todo):
                 break
-            i = start + got
-            if i >= len(lines):
+            if got >= len(todo):
                 break
+            i = todo[got]
             kind, where = self.classify(r.returncode, err)
             res[i] = {"fail": kind, "where": where, "err": err[-1800:]}
-            start = i + 1
+            fn = lines[i].split()[0]
+            deaths[fn] = deaths.get(fn, 0) + 1
+            todo = todo[got + 1:]
         return res
 
 
@@ -251,6 +260,8 @@ def function_level(ctx, real, quick, k):
         ctx.count(1, key=("fn", line))
         ctx.hist("function-level", fn)
         died = isinstance(a, dict)
+        if a == "skipped":
+            continue
         by_site.setdefault(fn, []).append((n, line, died, a, m))
     for fn, rows in by_site.items():
         dead = [r for r in rows if r[2]]
@@ -278,16 +289,23 @@ def function_level(ctx, real, quick, k):
                 break
     # ---- loops: identical answers; a time-out is a violation; out-of-fuel in the model must be a time-out
     nbad = 0
+    seen_keys = set()
     for line, a, m in zip(loops, ans_r[len(lines):], ans_m[len(lines):]):
         ctx.count(1, key=("fn", line))
         ctx.hist("function-level", line.split()[0])
         if isinstance(a, dict):
             clean = False
+            key = f"fn:{line.split()[0]}:{a['fail']}@{a['where']}"
+            if key in seen_keys:
+                continue
+            seen_keys.add(key)
             line_min = shrink_bytes_fn(real, line, a)
-            ctx.violation(f"fn:{line.split()[0]}:{a['fail']}@{a['where']}",
-                          f"{line.split()[0]} on {len(bytes.fromhex(line_min.split()[1].replace('-', '')))} bytes: {a['fail']} in {a['where']}"
-                          f" (model: {m})",
+            nb = len(bytes.fromhex(line_min.split()[1].replace('-', '')))
+            ctx.violation(key, f"{line.split()[0]} on {nb} bytes {bytes.fromhex(line_min.split()[1].replace('-', ''))[:40]!r}: "
+                               f"{a['fail']} in {a['where']} (model: {m})",
                           {"kind": "fn", "schema": real.schema, "request": line_min, "sanitizer": a["err"][-1200:], "model": m})
+        elif a == "skipped":
+            continue
         elif a != m:
             nbad += 1
             clean = False
@@ -318,22 +336,26 @@ def bisect_site(real, fn, line, n, a):
     return best
 
 
-def shrink_bytes_fn(real, line, a):
+def shrink_bytes_fn(real, line, a, max_tries=16):
     fn, hx = line.split()[:2]
     bs = bytes.fromhex(hx) if hx != "-" else b""
     same = lambda r: isinstance(r, dict) and r["fail"] == a["fail"]
+    tries = 0
     changed = True
-    while changed and len(bs) > 1:
+    while changed and len(bs) > 1 and tries < max_tries:
         changed = False
         for cut in (len(bs) // 2, len(bs) // 4, 1):
             if cut < 1:
                 continue
             for i in range(0, len(bs), cut):
                 cand = bs[:i] + bs[i + cut:]
+                tries += 1
+                if tries > max_tries:
+                    break
                 if cand != bs and same(real.run_fn([f"{fn} {hexs(cand)}"])[0]):
                     bs = cand; changed = True
                     break
-            if changed:
+            if changed or tries > max_tries:
                 break
     return f"{fn} {hexs(bs)}"
 
